@@ -3,7 +3,7 @@ import os, re, json, time, subprocess, shutil, sys
 
 VERIF = os.path.dirname(os.path.dirname(os.path.abspath(__file__)))
 REPO = os.environ.get('VF_REPO', '/repo')
-INC = ['libs/core/include', 'libs/parse/include', 'libs/options/include', 'libs/log/include', 'libs/log/impl/include',
+INC = ['libs/core/include', 'libs/parse/include', 'libs/options/include', 'libs/options/impl/include', 'libs/log/include', 'libs/log/impl/include',
        'libs/filesystem/include', 'libs/boost/include', 'libs/catch/include', '_build/include']
 
 EXTRACTION_DROPS = [
